@@ -8,9 +8,10 @@
        count_moves is the length; is_legal m <-> membership
      - every emitted move carries consistent labels (promotions are pawn moves, castling moves are king moves
        onto the stored rook square, double pushes land on the fourth/fifth rank), captures are exactly the
-       capturing types, non-captures exactly the others. *)
+       capturing types, non-captures exactly the others;
+     - MILESTONE 1: check_evasions() = exactly the legal king steps of the rules (on legal-consistent positions). *)
 From Coq Require Import NArith List Bool.
-From LC Require Import Bits Types BitboardModel MoveModel PositionModel MovegenModel MakeFacts MovegenFacts.
+From LC Require Import Bits Types BitboardModel MoveModel PositionModel MovegenModel MakeFacts MovegenFacts Spec.Rules Refine.Abs KingFacts.
 Import ListNotations.
 Local Open Scope N_scope.
 
@@ -33,6 +34,16 @@ Proof. exact legal_captures_capturing. Qed.
 Theorem C01_partial_noncapture_types : forall p m, In m (legal_noncaptures p) -> is_capturing m = false.
 Proof. exact legal_noncaptures_quiet. Qed.
 
+(* MILESTONE 1 (king steps): check_evasions() returns only moves that are legal under the rules and every legal king
+   step (king moves other than castling), none twice — on every legal-consistent position, both modes.  By the same
+   characterisation the king part of legal_captures / legal_noncaptures is exact (KingFacts.king_target_spec). *)
+Theorem C01_partial_check_evasions_exact : forall dfrc p m, wf p = true -> legal_consistent dfrc (abs p) = true ->
+  (In m (check_evasions p) <-> (In m (spec_moves (abs p)) /\ is_king_step m = true)).
+Proof. exact check_evasions_exact_lc. Qed.
+Theorem C01_partial_check_evasions_nodup : forall p, NoDup (check_evasions p).
+Proof. exact check_evasions_nodup. Qed.
+
+Print Assumptions C01_partial_check_evasions_exact. Print Assumptions C01_partial_check_evasions_nodup.
 Print Assumptions C01_partial_split. Print Assumptions C01_partial_into_appends. Print Assumptions C01_partial_count.
 Print Assumptions C01_partial_is_legal. Print Assumptions C01_partial_labels. Print Assumptions C01_partial_capture_types.
 Print Assumptions C01_partial_noncapture_types.
